@@ -8,7 +8,8 @@ G.nodes() / G.edges() orders are logged and handed to the model as the sweep sch
 model's exact rationals (core.close, 1e-9) and judged by the verified checker c17_check (= within 1e-9 of the
 specification iterate built from the exact expectation, in [0,1], 0 at phi=0, non-decreasing in phi) on both the
 history answers and the fresh answers; c17_check_motifs checks that every motif equation of the network is the
-exact expectation (polynomial identity).
+exact expectation (polynomial identity); c17_check_table checks the preconditions (table_okb, cover_okb, net_okb, pairwise_okb) under
+which the specification iterate is proved equal to the independent table-based message equations (mp_table).
 """
 import sys
 from fractions import Fraction
@@ -40,20 +41,34 @@ EXPLANATION = ("all C17 theorems are general (any network, any sweep order, any 
                "network, motifs of any size (C17_model_is_spec_unconditional, from the general C15 identity; the per-network "
                "polynomial check c17_check_motifs is still run as an independent check), bounds, value 0 at phi = 0, monotonicity in phi (C17_monotone), history independence, "
                "soundness of the checker. "
+               "INDEPENDENT SPECIFICATION (C17_spec_is_table / C17_model_is_table / C17_object_is_table / "
+               "C17_wire_model_is_table): under net_okb, cover_okb and table_okb (all three, and the table-only cover condition "
+               "pairwise_okb which implies cover_okb - C17_cover_from_pairwise -, decided per case by the wire "
+               "entry c17_check_table) the specification iterate, the model, the object and the extracted model equal "
+               "mp_table = 1 - (1/N) * sum over vertices i of the product over the motifs tau CONTAINING i ACCORDING TO "
+               "THE MOTIF TABLE of H_T(i,tau), where every update sets H(i,tau) to the exact expectation over motif tau "
+               "rooted at i with u_j = product over the table's motifs nu <> tau containing j of H(j,nu) "
+               "(C17_update_table); the neighbour / edge-label bookkeeping of the code (others, ids_at, u_of) does not "
+               "occur in mp_table, the edge list only fixes the order of the updates; C17_ids_at_table: the edge-label "
+               "view and the table view of the motifs of a vertex are permutations of each other. "
                "PARTIAL: that the iteration converges to THE fixed point is not proved (only the T-th Gauss-Seidel "
                "iterate from 0.5 is characterised; C17_full keeps the statement).")
 ASSUMPTIONS = [
     "networkx Graph.edges / nodes / neighbors iteration orders are taken as observed (logged and given to the model)",
     "cover labels are consistent: every edge carries the label of exactly one motif, whose vertex and edge lists "
-    "are those of the motif; motifs pairwise share at most one vertex",
+    "are those of the motif; motifs pairwise share at most one vertex (the part of this that the theorems use - net_okb, "
+    "cover_okb, table_okb: the motif table handed to the model is exactly the cover labelling the observed edges - is "
+    "checked on every case by c17_check_table)",
     "IEEE double arithmetic of the implementation stays within 1e-9 of exact arithmetic for the generated cases "
     "(iterations <= 3 in general, up to 25 on the small deep cases; observed error <= 1e-15; a message that "
     "underflows to 0.0 at phi = 1 is within 2^-1074 of its exact value)",
 ]
 TRUSTED = ["float -> exact rational via Fraction(float) (exact); tolerance 1e-9 of harness/core.close and of the checker"]
-PARTIAL = ['convergence of the iteration to THE fixed point (second conjunct of C17_full) is not proved; the code returns the T-th Gauss-Seidel iterate from 0.5 and that iterate is what is characterised', 'C17_formula_partial (1 - vertex average of products) holds by definition of the model; the model and the specification share the sweep bookkeeping, so "model = specification" reduces to the C15 identity; the bookkeeping itself is tied to the code only by the correspondence and by C17_others_semantic under cover_okb']
+PARTIAL = ['convergence of the iteration to THE fixed point (second conjunct of C17_full) is not proved; the code returns the T-th Gauss-Seidel iterate from 0.5 and that iterate is what is characterised', 'C17_formula_partial (1 - vertex average of products) holds by definition of the model and mp_spec shares the sweep bookkeeping (others / ids_at / u_of) with the model; RESOLVED by the independent table-based specification mp_table (membership read off the motif table m_verts, no adjacency bookkeeping): C17_update_table, C17_ids_at_table, C17_spec_is_table, C17_model_is_table, C17_object_is_table, C17_wire_model_is_table hold for every network with net_okb, cover_okb and table_okb (checked on every case by c17_check_table); outside these preconditions (two motifs sharing >= 2 vertices, a table entry not present in the network, duplicate IDs) the code-shaped specification is NOT the message equations (examples C17_table_preconditions_needed) and nothing is claimed']
 TECHNIQUE = ("Coq: simulation lemma over the Gauss-Seidel sweeps (model/spec, cached/fresh evaluator, reduced/plain "
-             "arithmetic), invariants for the bounds and phi = 0, on top of the C15 cache invariant; verified checker "
+             "arithmetic), invariants for the bounds and phi = 0, on top of the C15 cache invariant; independent table-based "
+             "specification related to the code-shaped one by a permutation lemma (edge labels vs motif table) and "
+             "extensionality of the expectation on the motif's vertices; verified checker "
              "on the implementation's floats; model/implementation correspondence with logged sweep order")
 LEVEL_TEXT = (
     "coq/Props/C17.v, all GENERAL (every network, sweep order, iteration count T): C17_formula_partial - the returned value is "
@@ -68,7 +83,27 @@ LEVEL_TEXT = (
     "reduced-fraction model, return the specification's values for every well-formed network; C17_bounds - 0 <= value <= 1 for 0 <= phi <= 1; C17_zero - value 0 at "
     "phi = 0 for every T >= 1; C17_monotone - 0 <= phi <= phi' <= 1 implies value(phi) <= value(phi') for every T; C17_history - any sequence of queries on one object (evaluator caches persist, _H_tau is "
     "reset) returns what fresh objects return; C17_wire_model - the reduced-fraction executable model equals the "
-    "model; C17_check_sound. PARTIAL (C17_full kept as Definition): convergence of the iteration to the fixed point is "
+    "model; C17_check_sound. "
+    "INDEPENDENT TABLE-BASED SPECIFICATION (GENERAL, for every network with net_okb, cover_okb, table_okb; the three "
+    "are decided by the wire entry c17_check_table on every case, C17_check_table_sound): mp_table nt T phi = "
+    "1 - (1/N) * sum over vertices i of product over motifs tau containing i of H_T(i,tau), membership read off the "
+    "motif table (m_verts), H_T = T Gauss-Seidel sweeps from 0.5 in edge order whose steps set H(i,tau) to the exact "
+    "expectation over motif tau rooted at i of the product of u_j, u_j = product over the table's motifs nu <> tau "
+    "containing j of H(j,nu) - no neighbour / edge-label bookkeeping; C17_ids_at_table - the motif IDs on the edges at "
+    "v and the table's motifs containing v are permutations of each other (net_okb, table_okb); C17_update_table - "
+    "every update of the code-shaped specification is that table-based step (other entries unchanged); "
+    "C17_spec_is_table (= C17_formula_table) - mp_spec == mp_table for every T and phi; C17_model_is_table, "
+    "C17_object_is_table, C17_wire_model_is_table - the model of the code, one object queried repeatedly and the "
+    "extracted reduced-fraction model equal mp_table; C17_check_sound_table - answers accepted by the verified checker "
+    "are within 1e-9 of mp_table; C17_table_properties - bounds, value 0 at phi = 0, monotonicity in phi for mp_table; "
+    "C17_cover_from_pairwise - net_okb and pairwise_okb (any two table motifs with different IDs share at most one "
+    "vertex: the cover assumption on the table alone) imply cover_okb, C17_object_is_table_pairwise - the end-to-end "
+    "statement with these table-only preconditions; C17_table_solution_is_fixed_point (no precondition) - a solution "
+    "of the table-form message equations is a fixed point of the table-based sweep (converse and convergence not "
+    "proved). table_okb (motif IDs of the table pairwise distinct; every edge "
+    "of every table motif present in the network with that motif's ID) is necessary: counterexamples for each "
+    "dropped precondition are in C17_table_preconditions_needed. "
+    "PARTIAL (C17_full kept as Definition): convergence of the iteration to the fixed point is "
     "not proved.")
 LEVEL_NOTE = ("Trusted: Coq kernel; extraction + OCaml driver + Python harness for the correspondence; networkx "
               "iteration orders as logged; float/rational tolerance 1e-9. No axioms.")
@@ -572,7 +607,8 @@ def check_calls(case, impl_obs):
     net = _net_tree(case, impl_obs)
     return [("c17_check", net + [_T(case), [[p, v] for p, v in zip(case["phis"], impl_obs["hist"])]]),
             ("c17_check", net + [_T(case), [[p, v] for p, v in zip(case["phis"], impl_obs["fresh"])]]),
-            ("c17_check_motifs", net)]
+            ("c17_check_motifs", net),
+            ("c17_check_table", net)]
 
 
 def check_verdict(case, impl_obs, raws):
@@ -588,6 +624,11 @@ def check_verdict(case, impl_obs, raws):
         return "answers of fresh objects violate the property (c17_check)"
     if raws[2] != 1:
         return "a motif equation of the network is not the exact expectation, or the cover precondition fails (c17_check_motifs)"
+    if raws[3] != 1:
+        return ("a precondition of the table-based specification fails (c17_check_table: table_okb - motif IDs of the table "
+                "pairwise distinct and every edge of every table motif present in the observed G.edges() with that "
+                "motif's ID -, cover_okb, net_okb, pairwise_okb), so the returned values are not tied to the message equations over "
+                "the motif table")
     return None
 
 
